@@ -167,6 +167,8 @@ class Run:
             self.coverage['samples'].append(s)
 
     def finish(self):
+        if not self.coverage['samples']:
+            self.coverage['samples'].append({'note': 'no case was run to completion', 'broken': self.broken[:2]})
         # a broken proof / correspondence with no concrete failing input found
         if self.broken and not any(not ni for _p, ni in self.violations):
             self.violation({'broken': self.broken, 'log_tail': self.proof_log[-3000:],
